@@ -60,12 +60,40 @@ func ConnState(conn *grpc.ClientConn) connectivity.State {
 			st = W.P4.State
 		default:
 			st = W.Bess.State
+			// grpc-go parks a channel without RPCs in IDLE after its idle timeout
+			// (30 min by default); the next RPC or Connect() wakes it transparently
+			if b := W.Bess; st == connectivity.Ready && b.IdleTimeout > 0 && W.Sim.NowNS()-b.lastRPC >= int64(b.IdleTimeout) {
+				st = connectivity.Idle
+				b.Fired["grpc-channel-idle-seen"]++
+			}
 		}
 	})
 	return st
 }
 
 func ConnClose(conn *grpc.ClientConn) error { return nil }
+
+// ConnConnect replaces (*grpc.ClientConn).Connect: leaves IDLE.
+//
+//go:norace
+func ConnConnect(conn *grpc.ClientConn) {
+	vsim.Call(func() {
+		if connKind[conn] != "p4" {
+			W.Bess.lastRPC = W.Sim.NowNS()
+		}
+	})
+}
+
+// ConnWaitForStateChange replaces (*grpc.ClientConn).WaitForStateChange.
+func ConnWaitForStateChange(conn *grpc.ClientConn, ctx context.Context, s connectivity.State) bool {
+	for ConnState(conn) == s {
+		if ctx.Err() != nil {
+			return false
+		}
+		vsim.Sleep(5 * time.Millisecond)
+	}
+	return true
+}
 
 // ---------------------------------------------------------------- simulated RPC plumbing
 
@@ -190,13 +218,16 @@ type SimBESS struct {
 	Cmds  []BessCmd
 	calls int
 	Calls int // total ModuleCommand calls received
+	// IdleTimeout: the channel reads IDLE after this long without an RPC (grpc-go default: 30 min)
+	IdleTimeout time.Duration
+	lastRPC     int64
 	Fired map[string]int
 	// OnApply is called after each applied command (oracles hook in here).
 	OnApply func(c BessCmd)
 }
 
 func newSimBESS(w *World) *SimBESS {
-	return &SimBESS{w: w, State: connectivity.Ready, Faults: RPCFaults{LatMin: 100 * time.Microsecond},
+	return &SimBESS{w: w, State: connectivity.Ready, Faults: RPCFaults{LatMin: 100 * time.Microsecond}, IdleTimeout: 30 * time.Minute,
 		PDR: map[string]*WCEntry{}, FAR: map[string]*EMEntry{},
 		Qos: map[string]map[string]*QosEntry{"appQERLookup": {}, "sessionQERLookup": {}, "sliceMeter": {}},
 		Gtpu: map[uint32]int{}, Fired: map[string]int{}}
@@ -391,6 +422,7 @@ func emptyDataFor(req *pb.CommandRequest) *anypb.Any {
 func (b *SimBESS) submit(reqBytes []byte, inc int) *rpcCall {
 	s := b.w.Sim
 	b.calls++
+	b.lastRPC = b.w.Sim.NowNS()
 	b.Calls++
 	c := &rpcCall{id: b.calls, inc: inc}
 	finish := func(d time.Duration, f func()) {
